@@ -162,6 +162,19 @@ def holeBump (base lineBytes s e : Nat) : Bump := ⟨base + s * lineBytes, base 
 
 def lineRegion (base lineBytes k : Nat) : Region := ⟨base + k * lineBytes, lineBytes⟩
 
+/-- all holes of a block from `search` on, by iterating the hole search the way
+`acquire_recyclable_lines` does (`self.line = Some(end_line)`) — this is the memory a recycled block
+contributes to the free memory after a collection -/
+def allHoles (lineFree : Nat → Bool) (n : Nat) : Nat → Nat → List (Nat × Nat)
+  | 0, _ => []
+  | fuel + 1, search =>
+    match nextHole lineFree n search with
+    | none => []
+    | some (s, e) => (s, e) :: allHoles lineFree n fuel e
+
+def holeRegion (base lineBytes : Nat) (h : Nat × Nat) : Region :=
+  ⟨base + h.1 * lineBytes, (h.2 - h.1) * lineBytes⟩
+
 /-! ### free-list cells -/
 
 /-- a mark-sweep block of one size class: cell `k` is `[base + k*cell, base + (k+1)*cell)` -/
